@@ -1181,6 +1181,12 @@ func (vc *VC) trCall(x *ECall, env *Env) TV {
 	case "held":
 		a := vc.tr(x.Args[0], env)
 		return TV{T: B, S: vc.envHeapRead(env, "#held", B, a.S)}
+	case "polledopen":
+		// polledopen(ch): this activation has executed a non-blocking select over ch that took its
+		// default branch (nothing to receive, so the channel was not closed at that moment)
+		a := vc.tr(x.Args[0], env)
+		vc.heapKeySort("#polled", B)
+		return TV{T: B, S: vc.envHeapRead(env, "#polled", B, a.S)}
 	case "oncedone":
 		// oncedone(o): the sync.Once o has fired (tracked under "flag model-once")
 		a := vc.tr(x.Args[0], env)
